@@ -6,6 +6,8 @@ pub mod print;
 pub mod subtyping;
 pub mod swc_tools;
 pub mod test_tools;
+#[cfg(feature = "beff_verif")]
+pub mod verif_probe;
 pub mod wasm_diag;
 
 use crate::ast::runtype::DebugPrintCtx;
